@@ -133,6 +133,14 @@ fn create_next_state<C: ContentAddrStore>(
         }
     }
     for tx in transactions {
+        // A block holds a transaction at most once: its transaction set is keyed by hash, so a second
+        // application could not be represented in it. (The grandfathered faucet transaction, which
+        // leaves no de-duplication marker, could otherwise be applied twice to one block: the state's
+        // own block would then be rejected by its parent, and a block carrying two signature variants
+        // of it would be accepted or not depending on the iteration order of the block's hash set.)
+        if next_state.transactions.contains(tx.hash_nosigs()) {
+            return Err(StateError::DuplicateTx);
+        }
         if tx.kind == TxKind::Faucet {
             handle_faucet_tx(&mut next_state, tx)?;
         }
